@@ -249,6 +249,75 @@ fn long_inputs(acc: &mut Acc) {
     }
 }
 
+/// Reader- and iterator-backed byte inputs (`IoInput`, `Stream<u8>`): a clean accept there means the whole
+/// input was matched, i.e. the same grammar cleanly accepts the same bytes as a `&[u8]` slice (where "end of
+/// input" is a plain length comparison), in parse and in check mode — in particular after a sub-parser ran
+/// into the real end of the reader and was backtracked out of.
+fn byte_input_family(acc: &mut Acc, cx: &RunCtx) {
+    use super::c10::{u8_grammars, EU};
+    use chumsky::input::{IoInput, Stream};
+    use chumsky::prelude::{Boxed, SimpleSpan};
+    fn clean<'s, I: chumsky::input::ValueInput<'s, Token = u8, Span = chumsky::prelude::SimpleSpan>>(p: &chumsky::prelude::Boxed<'s, 's, I, String, EU<'s>>, input: I, check: bool) -> bool {
+        if check {
+            let r = p.check(input);
+            r.has_output() && !r.has_errors()
+        } else {
+            let r = p.parse(input);
+            r.has_output() && !r.has_errors()
+        }
+    }
+    let alpha: Vec<u8> = b"ab1,(".to_vec();
+    let mut inputs: Vec<Vec<u8>> = vec![vec![]];
+    let mut frontier: Vec<Vec<u8>> = vec![vec![]];
+    for _ in 0..cx.t(5, 6) {
+        let mut next = vec![];
+        for w in &frontier {
+            for c in &alpha {
+                let mut v = w.clone();
+                v.push(*c);
+                next.push(v);
+            }
+        }
+        inputs.extend(next.iter().cloned());
+        frontier = next;
+    }
+    let n_g = u8_grammars::<&[u8]>().len();
+    let bacc = for_each_index(inputs.len(), cx.threads, 64, |acc, wi| {
+        let w = &inputs[wi];
+        for gi in 0..n_g {
+            for check in [false, true] {
+                let name = u8_grammars::<&[u8]>()[gi].0;
+                let whole = match guarded(|| clean(&u8_grammars::<&[u8]>()[gi].1, &w[..], check)) {
+                    Ok(b) => b,
+                    Err(_) => continue,
+                };
+                for kind in ["IoInput", "Stream<u8>"] {
+                    acc.evaluations += 1;
+                    acc.count("byte_input_runs", 1);
+                    let got = if kind == "IoInput" {
+                        guarded(|| clean(&u8_grammars::<IoInput<std::io::Cursor<Vec<u8>>>>()[gi].1, IoInput::new(std::io::Cursor::new(w.clone())), check))
+                    } else {
+                        guarded(|| clean(&u8_grammars::<Stream<std::vec::IntoIter<u8>>>()[gi].1, Stream::from_iter(w.clone()), check))
+                    };
+                    if whole {
+                        acc.count("byte_input_clean_accepts", 1);
+                    }
+                    match got {
+                        Ok(g) if g == whole => {}
+                        Ok(g) => acc.viol(Viol {
+                            weight: 200 + w.len(),
+                            what: format!("C03: {}() of [{}] on {:?} supplied as {}: clean accept = {} but the grammar {} the whole input (as &[u8])", if check { "check" } else { "parse" }, name, String::from_utf8_lossy(w), kind, g, if whole { "matches" } else { "does not match" }),
+                            detail: json!({"grammar_text": name, "input": String::from_utf8_lossy(w), "kind": kind}),
+                        }),
+                        Err(e) => acc.viol(Viol { weight: 200 + w.len(), what: format!("C03: [{}] on {:?} supplied as {}: {}", name, String::from_utf8_lossy(w), kind, e), detail: json!({"grammar_text": name, "input": String::from_utf8_lossy(w), "kind": kind}) }),
+                    }
+                }
+            }
+        }
+    });
+    acc.merge(bacc);
+}
+
 /// Pratt parsers are grammars too: the bare `atom.pratt(table)` must accept exactly the inputs that the
 /// textbook binding-power loop consumes completely (an operator whose operand is missing, or one that a
 /// later operator would have to skip over, is *not* consumed by the grammar), `lazy()` exactly those with
@@ -364,16 +433,17 @@ pub fn run(cx: &RunCtx) -> i32 {
     });
     acc.merge(racc);
     pratt_family(&mut acc, cx);
+    byte_input_family(&mut acc, cx);
     acc.count("results_checked_against_api_contract", RESULTS_SEEN.with(|c| c.get()));
     finish(
         cx,
         acc,
         Finish {
-            rule: format!("every grammar with <= {size} nodes over (C01 core + repetition/separator/fold + validate + recover_with(via_parser|skip_until|skip_then_retry_until)) x every input of length <= {max_len} over {{a,b,é}}: parse(), check() and lazy().parse() each compared with the reference semantics (whole-input match, prefix match); every cleanly accepted input of maximal length (and all lengths for every 16th grammar) is extended by each letter and re-parsed; every ParseResult is run through the accessor-consistency assertions; every 4th grammar also with EmptyErr (parse and check), Cheap (check) and on a Stream input; 6 repetition grammars on inputs of 511..1301 tokens (all 'a', with a 'b' or 'c' at the end / at the 512-token batch boundary / in the middle, alternating) on &str, Stream (exact size hint), Stream over an iterator without size hint and a boxed Stream, parse and check; plus {n_rand} random grammars x 4 random inputs; plus a Pratt family (all operator tables with <= 2 operators over 4 kinds x 3 symbols x 3 powers and a sample of 3-operator tables, bare atom.pratt(table), x all strings over {{x,+,-,*}} up to length {}; parse / check / lazy against the textbook binding-power loop: clean accept iff the loop consumes the whole input, lazy iff it finds an expression prefix); non-trivial = the grammar matches a prefix of a non-empty input", cx.t(5, 6)),
+            rule: format!("every grammar with <= {size} nodes over (C01 core + repetition/separator/fold + validate + recover_with(via_parser|skip_until|skip_then_retry_until)) x every input of length <= {max_len} over {{a,b,é}}: parse(), check() and lazy().parse() each compared with the reference semantics (whole-input match, prefix match); every cleanly accepted input of maximal length (and all lengths for every 16th grammar) is extended by each letter and re-parsed; every ParseResult is run through the accessor-consistency assertions; every 4th grammar also with EmptyErr (parse and check), Cheap (check) and on a Stream input; 6 repetition grammars on inputs of 511..1301 tokens (all 'a', with a 'b' or 'c' at the end / at the 512-token batch boundary / in the middle, alternating) on &str, Stream (exact size hint), Stream over an iterator without size hint and a boxed Stream, parse and check; plus {n_rand} random grammars x 4 random inputs; plus a Pratt family (all operator tables with <= 2 operators over 4 kinds x 3 symbols x 3 powers and a sample of 3-operator tables, bare atom.pratt(table), x all strings over {{x,+,-,*}} up to length {}; parse / check / lazy against the textbook binding-power loop: clean accept iff the loop consumes the whole input, lazy iff it finds an expression prefix); plus 14 byte grammars (shared-prefix choices, lookahead, rewind, recovery, folds) on IoInput and Stream<u8> x all byte strings <= {} over {{a,b,1,',',(}}: clean accept iff the same grammar cleanly accepts the bytes as a &[u8] slice, parse and check; non-trivial = the grammar matches a prefix of a non-empty input", cx.t(5, 6), cx.t(5, 6)),
             exhaustive: false,
             exhaustive_note: format!("grammars <= {size} nodes x inputs <= {max_len}: complete"),
             assumptions: vec!["reference semantics decides 'matches the entire input'".into(), "A1/A2/A9 cases counted as ambiguous".into()],
-            require: vec![("other_type_or_kind_runs".into(), 1000), ("long_input_runs".into(), 1000), ("clean_accepts".into(), 100), ("proper_prefix_matches".into(), 100), ("extensions_checked".into(), 100), ("lazy_prefix_accepts".into(), 100), ("accepts_with_errors".into(), 10), ("pratt_family_clean_accepts".into(), 1000), ("pratt_family_proper_prefix_expressions".into(), 1000)],
+            require: vec![("other_type_or_kind_runs".into(), 1000), ("long_input_runs".into(), 1000), ("clean_accepts".into(), 100), ("proper_prefix_matches".into(), 100), ("extensions_checked".into(), 100), ("lazy_prefix_accepts".into(), 100), ("accepts_with_errors".into(), 10), ("pratt_family_clean_accepts".into(), 1000), ("byte_input_runs".into(), 10_000), ("byte_input_clean_accepts".into(), 1000), ("pratt_family_proper_prefix_expressions".into(), 1000)],
             min_evaluations: 10_000,
         },
     )
